@@ -8,7 +8,7 @@ from contracts import headervd as H
 
 JOLIET_SCENARIOS = ['joliet', 'hard-links', 'rr-joliet-remove'] + sorted(F.JOLIET_SCRIPTS)
 # refusals of Joliet requests (the refusal itself and that nothing changed).  The multi-namespace calls that are refused after the
-# ISO9660 part was applied are C14's subject (known finding K12 there) and are not repeated here.
+# ISO9660 part was applied are C14's subject (K12 there, repaired) and are not repeated here.
 REFUSALS = ['add_hard_link:joliet-duplicate-new', 'rm_directory:joliet-is-file', 'rm_directory:joliet-nonempty', 'rm_file:nonexistent-on-joliet']
 
 
